@@ -22,8 +22,8 @@ class IdealAC:
         self.requests = []          # (frame type, body) accepted by the reference frame parser
         self.rejected = []          # frames the reference frame parser does not accept
 
-    def status_frame(self, ftype=3):
-        st, outs = self.m.call(F_STATUS, [self.state])
+    def status_frame(self, ftype=3, state=None):
+        st, outs = self.m.call(F_STATUS, [self.state if state is None else state])
         st, o2 = self.m.call(F_FRAME, [[ftype], outs[0]])
         return bytes(o2[0])
 
@@ -87,6 +87,9 @@ class Appliance:
         if not frames:
             return []
         after = [self.ac.status_frame()] if extra == "after" else (list(frames) if extra == "dup" else [])
+        if extra == "sandwich" and len(self.ac.history) > 1:
+            # a repeat of the answer, a (late) report of the state the appliance was in before, then the answer: the LAST report is current
+            before = list(frames) + [self.ac.status_frame(state=self.ac.history[-2])]
         pkts = [bytes(self.lan.response_packet(conn, f)) for f in before + frames + after]
         return self.segments(conn, pkts)
 
